@@ -102,6 +102,7 @@ class Node:
             lookahead=self.knobs.get("lookahead", 2),
             dequeue=self.knobs.get("dequeue", "fifo"),
             worker_factory=self._spawn_worker,
+            straggler=self.knobs.get("straggler"),
         )
         self.logcap = LogCapture()
         self.handles: dict[str, Any] = {}
@@ -175,7 +176,10 @@ class Node:
 
         cpus = self.knobs.get("cpu_count", 4)
         multiprocessing.cpu_count = lambda: cpus  # type: ignore
-        _runner.MultiProcessRunner.POOL_TYPE = self.poolsim.factory  # type: ignore
+        if self.knobs.get("pool_backend") != "real":
+            _runner.MultiProcessRunner.POOL_TYPE = self.poolsim.factory  # type: ignore
+        # "real": the stdlib multiprocessing.Pool stays in place (SimPool fidelity cross-check only;
+        # its scheduling is the OS's, so such a run is never part of a digest or a verdict)
 
         from sqlfluff.core.config import progress_bar_configuration
 
